@@ -25,6 +25,9 @@ type Scenario struct {
 	Base    func() *crashkv.DB
 	Setup   []Call
 	Threads [][]Call
+	// QuickCap, when > 0, replaces the quick tier's cap on executed schedules per preemption bound (layout families
+	// with many members; the thorough tier explores them up to the common cap)
+	QuickCap int
 }
 
 var (
@@ -80,6 +83,65 @@ func CheckHeld(nd *labnet.Node) []string {
 		}
 	}
 	return out
+}
+
+// Waiters: goroutines parked in Chain.BlockWaiter(h) (what the wallet, the websocket notifier and the trace updater
+// do). waiterCall only registers the waiter (BlockWaiter returns at once, its goroutine parks on the chain's condition
+// variable and is scheduled like any other thread); CheckWaiters is the progress oracle, evaluated when nothing can
+// run any more: a waiter whose height the best block has reached must have delivered on its channel ("the call
+// <-BlockWaiter(h) returns"), and a waiter can only have delivered if some delivered block had that height.
+type waiter struct {
+	h  uint64
+	ch <-chan struct{}
+}
+
+var waiters = map[*labnet.Node][]waiter{}
+
+func waiterCall(h uint64) Call {
+	return Call{fmt.Sprintf("BW(%d)", h), func(nd *labnet.Node) string {
+		ch := nd.Chain.BlockWaiter(h)
+		heldMu.Lock()
+		waiters[nd] = append(waiters[nd], waiter{h, ch})
+		heldMu.Unlock()
+		return ""
+	}}
+}
+
+// CheckWaiters compares every registered waiter of nd with the reference and forgets them. fired(i) reports whether
+// waiter i's channel has delivered (the explorer looks at the quiescent state, the race pass waits with a timeout).
+// maxHeight is the largest height of any block the scenario delivers.
+func CheckWaiters(nd *labnet.Node, maxHeight uint64, fired func(ch <-chan struct{}, mustFire bool) bool) (lost, early []string) {
+	heldMu.Lock()
+	ws := waiters[nd]
+	delete(waiters, nd)
+	heldMu.Unlock()
+	best := nd.Chain.BestBlockHeight()
+	for i, w := range ws {
+		f := fired(w.ch, best >= w.h)
+		switch {
+		case best >= w.h && !f:
+			lost = append(lost, fmt.Sprintf("waiter #%d of %d (registration order) for height %d never delivered although the best block height is %d and nothing can run any more: <-BlockWaiter(%d) does not return", i, len(ws), w.h, best, w.h))
+		case f && w.h > maxHeight:
+			early = append(early, fmt.Sprintf("waiter #%d for height %d delivered although no block above height %d was ever delivered", i, w.h, maxHeight))
+		}
+	}
+	return
+}
+
+// MaxHeight is the largest block height in either world (bound for a legitimate waiter delivery).
+func MaxHeight() uint64 {
+	var m uint64
+	for _, w := range []*chainlab.World{W, PW} {
+		if w == nil {
+			continue
+		}
+		for _, b := range w.Blocks {
+			if b.Height > m {
+				m = b.Height
+			}
+		}
+	}
+	return m
 }
 
 func relayCall() Call {
@@ -152,19 +214,19 @@ func Build(thorough bool) []Scenario {
 	empty := func() *crashkv.DB { return crashkv.New() }
 	forkSetup := []Call{B(a1), B(a2), B(a3), B(b1), B(b2), V(0, 0, b2), V(1, 0, b2)}
 	sc := []Scenario{
-		{"S1 best-changing vote alone", empty, forkSetup, [][]Call{{V(2, 0, b2)}}},
-		{"S2 block || best-changing vote || reads", empty, forkSetup, [][]Call{{B(a4)}, {V(2, 0, b2)}, {readsCall(w, a2)}}},
-		{"S4 cached votes replayed at epoch block || vote || block", empty, []Call{B(a1), V(0, 0, a2), V(1, 0, a2)}, [][]Call{{B(a2), B(a3)}, {V(2, 0, a2)}, {B(b1)}}},
+		{"S1 best-changing vote alone", empty, forkSetup, [][]Call{{V(2, 0, b2)}}, 0},
+		{"S2 block || best-changing vote || reads", empty, forkSetup, [][]Call{{B(a4)}, {V(2, 0, b2)}, {readsCall(w, a2)}}, 0},
+		{"S4 cached votes replayed at epoch block || vote || block", empty, []Call{B(a1), V(0, 0, a2), V(1, 0, a2)}, [][]Call{{B(a2), B(a3)}, {V(2, 0, a2)}, {B(b1)}}, 0},
 		// votes for b2 parked before b2 is known; b4 and b5 wait as orphans; b3 starts the epoch after b2 (the parked
 		// votes are replayed and ask the chain to move to branch b) and connects the orphan run, whose b5 starts the
 		// NEXT epoch while the first replay may still be waiting for the chain
 		{"S7 parked best-changing votes replayed || orphan run crossing the next epoch boundary || reads", empty,
 			[]Call{B(a1), B(a2), B(a3), B(a4), V(0, 0, b2), V(1, 0, b2), V(2, 0, b2), B(b1), B(b2), B(b4), B(b5)},
-			[][]Call{{B(b3)}, {readsCall(w, b2)}}},
+			[][]Call{{B(b3)}, {readsCall(w, b2)}}, 0},
 		// a2 arrives carrying validator 0's signature; validator 1's vote for the same link is admitted while the
 		// caller still holds (and relays) the block it had delivered
 		{"S8 vote for a link the delivered block carries || relay of the delivered block || block", empty,
-			[]Call{B(a1)}, [][]Call{{blockSLCall(w, a2, 0, 0), V(1, 0, a2)}, {relayCall(), relayCall()}, {B(b1)}}},
+			[]Call{B(a1)}, [][]Call{{blockSLCall(w, a2, 0, 0), V(1, 0, a2)}, {relayCall(), relayCall()}, {B(b1)}}, 0},
 	}
 	// S3 needs spendable outputs: prelude built once with real goroutines (pass-through mode)
 	var err error
@@ -190,11 +252,48 @@ func Build(thorough bool) []Scenario {
 		return ""
 	}}
 	sc = append(sc, Scenario{"S3 ValidateTx || block containing it || pool reads", func() *crashkv.DB { return P.Base.Clone() }, []Call{validate(ptx2, "t2")},
-		[][]Call{{validate(ptx, "t1")}, {blockCall(pw, p1)}, {poolReads}}})
+		[][]Call{{validate(ptx, "t1")}, {blockCall(pw, p1)}, {poolReads}}, 0})
+	// S9: waiter layouts. Every ordered list of 2 (thorough: also 3) waiter heights from {next, next+1, far} is parked
+	// in that order on the chain's condition variable before two blocks are delivered, while a further waiter is
+	// registered concurrently with the block processing. S10: the same with the best block changed by a vote (setState
+	// through the rollback path) concurrently with a block.
+	const far = 100
+	lay := [][]uint64{}
+	hs := []uint64{2, 3, far}
+	for _, x := range hs {
+		for _, y := range hs {
+			lay = append(lay, []uint64{x, y})
+			if thorough {
+				for _, z := range hs {
+					lay = append(lay, []uint64{x, y, z})
+				}
+			}
+		}
+	}
+	for _, l := range lay {
+		setup := []Call{B(a1)}
+		for _, h := range l {
+			setup = append(setup, waiterCall(h))
+		}
+		sc = append(sc, Scenario{fmt.Sprintf("S9 waiters parked for heights %v || two blocks || waiter registered meanwhile", l), empty, setup,
+			[][]Call{{B(a2), B(a3)}, {waiterCall(3)}}, 80})
+	}
+	lay10 := [][]uint64{{4, 4}, {far, 4}, {4, far}}
+	if thorough {
+		lay10 = append(lay10, []uint64{3, 4}, []uint64{4, 3}, []uint64{far, 4, 4}, []uint64{4, far, 4}, []uint64{4, 4, 4})
+	}
+	for _, l := range lay10 {
+		setup := append([]Call(nil), forkSetup...)
+		for _, h := range l {
+			setup = append(setup, waiterCall(h))
+		}
+		sc = append(sc, Scenario{fmt.Sprintf("S10 waiters parked for heights %v || block || best-changing vote || waiter registered meanwhile", l), empty, setup,
+			[][]Call{{B(a4)}, {V(2, 0, b2)}, {waiterCall(4)}}, 80})
+	}
 	if thorough {
 		sc = append(sc,
-			Scenario{"S5 two best-changing votes || block", empty, []Call{B(a1), B(a2), B(a3), B(b1), B(b2), V(0, 0, b2), V(1, 0, b2), V(0, 0, a2), V(1, 0, a2)}, [][]Call{{V(2, 0, b2)}, {V(3, 0, a2)}, {B(b3)}}},
-			Scenario{"S6 blocks of both forks || vote", empty, []Call{B(a1), B(b1), B(b2), V(0, 0, b2), V(1, 0, b2)}, [][]Call{{B(a2), B(a3)}, {V(2, 0, b2)}, {B(b3)}}},
+			Scenario{"S5 two best-changing votes || block", empty, []Call{B(a1), B(a2), B(a3), B(b1), B(b2), V(0, 0, b2), V(1, 0, b2), V(0, 0, a2), V(1, 0, a2)}, [][]Call{{V(2, 0, b2)}, {V(3, 0, a2)}, {B(b3)}}, 0},
+			Scenario{"S6 blocks of both forks || vote", empty, []Call{B(a1), B(b1), B(b2), V(0, 0, b2), V(1, 0, b2)}, [][]Call{{B(a2), B(a3)}, {V(2, 0, b2)}, {B(b3)}}, 0},
 		)
 	}
 	return sc
